@@ -294,8 +294,7 @@ def sig(b):
 class C16(PropBase):
     pid = "C16"
     coq_dirs = ["Base", "C08", "C09", "C10", "C11", "C16"]
-    translators = []
-    translators = []
+    translators = ["c16_fsops.py"]
     bins = ["c16"]
     impl_timeout = 600
     rule = ("each case: fresh cache/ tmp/ local dirs, a scripted loopback HTTP/1.1 server per URL (status 200/403/404/500/503; "
